@@ -204,7 +204,29 @@ def t_syntax():
     return stats
 
 
+def t_long():
+    """bases of 9..40 tokens with two-digit step counts, multi-digit offsets and indices"""
+    stats = Stats()
+    n = 0
+    for length in (9, 10, 11, 12, 20, 40):
+        for last in ("0", "5", "9", "10", "99", "100", "999", "a", ""):
+            base = [TOKS[i % len(TOKS)] for i in range(length - 1)] + [last]
+            for steps in sorted({0, 1, 2, 9, 10, 11, length - 1, length, length + 1, 99, 100}):
+                for tail in ("", "#", "/x", "/0/1", "+1", "-1", "+10", "-10", "+99", "-99", "-100", "+1000", "+1#", "-5#", "+10/x", "-10/"):
+                    judge(stats, base, "%d%s" % (steps, tail), "long")
+                    n += 1
+            stats.nt("long", length, last)
+    stats.subspaces.append({"name": "bases of 9..40 tokens x 9 final tokens x step counts around 9/10, the base length and 99/100 x 16 offset / suffix forms", "size": n, "exhaustive": True})
+    return stats
+
+
 def tasks(tier, seed):
+    ts = _tasks(tier, seed)
+    ts.append({"name": "long", "fn": "t_long"})
+    return ts
+
+
+def _tasks(tier, seed):
     if tier == "quick":
         ts = [{"name": "exhaustive-%d" % k, "fn": "t_exhaustive", "kw": {"shard": k, "nshards": 14}} for k in range(14)]
     else:
